@@ -185,6 +185,21 @@ class Program:
                 if os.environ.get("PV_NO_ROLES") != "1":
                     from . import roles
                     self.renamed_locals = getattr(self, "renamed_locals", 0) + roles.apply(tree, name)
+                # module-level constants (NAME = literal / tuple of names): readable from every function of the module
+                consts = {}
+                for node in tree.body:
+                    tgt = None
+                    if isinstance(node, ast.Assign) and len(node.targets) == 1 and isinstance(node.targets[0], ast.Name):
+                        tgt, val = node.targets[0].id, node.value
+                    elif isinstance(node, ast.AnnAssign) and isinstance(node.target, ast.Name) and node.value is not None:
+                        tgt, val = node.target.id, node.value
+                    if tgt and isinstance(val, (ast.Constant, ast.Tuple, ast.List, ast.Set)) and all(
+                            isinstance(x, (ast.Constant, ast.Name, ast.Attribute, ast.Tuple, ast.List, ast.Set, ast.Load, ast.UnaryOp, ast.USub))
+                            for x in ast.walk(val)):
+                        consts[tgt] = val
+                for node in ast.walk(tree):
+                    if isinstance(node, (ast.FunctionDef, ast.AsyncFunctionDef)):
+                        node._pv_module_consts = consts
                 mi = ModuleInfo(name, path, src, tree)
                 self.modules[name] = mi
                 self._index_module(mi)
